@@ -1642,7 +1642,12 @@ func (a *Adversary) crossViewProof(h, v uint64) (*ref.Proof, *spi.Blk) {
 		if blk == nil {
 			continue
 		}
-		for u := uint64(0); u < v && u < k.v+uint64(2*c.N())+2; u++ {
+		// candidate views for the PREPREPARE ref: the 2n views on either side of the PREPAREs' view (bounded: views may be huge)
+		lo := uint64(0)
+		if k.v > uint64(2*c.N()) {
+			lo = k.v - uint64(2*c.N())
+		}
+		for u, tries := lo, 0; u < v && tries < 4*c.N()+4; u, tries = u+1, tries+1 {
 			leader := c.Leader(u)
 			if u == k.v || !a.w.Cfg.Byz[leader] {
 				continue
